@@ -62,10 +62,14 @@ def _cond(fam, level, fileset, nlines, nparts, part, decor=0, tiers=('quick', 't
     us['vs_istream_bytes.0'] = 130
     us['_ZN15CPPPreprocessor9InputFile4peekEv.0'] = 2
     menu = ('each line one of 17 kinds: #if 1/0, #ifdef D/U, #ifndef U/D, #elif 1/0, #elifdef D/U, #elifndef U/D, #else, #endif, '
-            '#define X, #error e, text marker' if fileset == 'F' else
+            '#define X, #error e, text marker' if fileset in ('F', 'M') else
             'each line one of 7 classes {open true/false, elif true/false, #else, #endif, text}, the spelling of the class '
-            '(#if/#ifdef/#ifndef, #elif/#elifdef/#elifndef, marker/#define/#error) chosen by the line number')
-    b = {'defs': defs, 'unwind': 40 if tok else 130, 'unwindset': us, 'cap': _CAP}
+            '(#if/#ifdef/#ifndef, #elif/#elifdef/#elifndef, marker/#define/#error) chosen by line number + file number')
+    if fileset == 'N':
+        menu += '; only the files with a conditional nested in another one and at least one text line'
+    if fileset == 'M':
+        menu += '; only the files of the shape open, (elif|else)*, marker, #endif'
+    b = {'defs': defs, 'unwind': 400 if tok else 130, 'unwindset': us, 'cap': _CAP}
     h = {'id': hid, 'property': 'C09', 'src': 'c09_cond.cxx', 'entry': 'harness_c09_cond',
          'tus': ['src/cppparser/cppPreprocessor.cxx', 'src/cppparser/cppExpressionParser.cxx', 'src/cppparser/cppExpression.cxx',
                  'src/cppparser/cppDeclaration.cxx', 'src/cppparser/cppFile.cxx', 'src/dtoolutil/filename.cxx'],
@@ -90,13 +94,16 @@ def _cond(fam, level, fileset, nlines, nparts, part, decor=0, tiers=('quick', 't
     return h
 
 
+_T = ('thorough',)
 HARNESSES = (
-    [_cond('tok_f3', 't', 'F', 3, 4, p) for p in range(4)] +                      # all kinds, 3 lines: 123 files
-    [_cond('tok_r4', 't', 'R', 4, 2, p) for p in range(2)] +                      # 7 classes, 4 lines: 57 files (nesting)
-    [_cond('chr_f2', 'c', 'F', 2, 3, p, d) for d in range(4) for p in range(3)] +                   # real character level, 2 lines: 15 files x 4 spellings
-    [_cond('tok_r5', 't', 'R', 5, 8, p, tiers=('thorough',)) for p in range(8)] +        # 265 files
-    [_cond('tok_f4', 't', 'F', 4, 32, p, tiers=('thorough',)) for p in range(32)] +      # 1233 files
-    [_cond('chr_r4', 'c', 'R', 4, 10, p, d, tiers=('thorough',)) for d in range(4) for p in range(10)]
+    [_cond('tok_f3', 't', 'F', 3, 8, p) for p in range(8)] +                      # all kinds, 3 lines: 123 files
+    [_cond('tok_r4', 't', 'R', 4, 8, p) for p in range(8)] +                      # 7 classes, 4 lines: 57 files
+    [_cond('tok_n5', 't', 'N', 5, 4, p) for p in range(4)] +                      # nested conditionals with text, 5 lines: 20 files
+    [_cond('chr_m3', 'c', 'M', 3, 1, 0, d) for d in range(4)] +                   # real character level: open, marker, endif x 4 spellings
+    [_cond('tok_r5', 't', 'R', 5, 8, p, tiers=_T) for p in range(8)] +                   # 265 files
+    [_cond('tok_f4', 't', 'F', 4, 32, p, tiers=_T) for p in range(32)] +                 # 1233 files
+    [_cond('chr_f2', 'c', 'F', 2, 3, p, d, tiers=_T) for d in range(4) for p in range(3)] +
+    [_cond('chr_m4', 'c', 'M', 4, 7, p, d, tiers=_T) for d in range(4) for p in range(7)]      # open, elif/else, marker, endif: 42 files
 )
 
 PROPERTY_INFO = {'C09': {'level': 'model_checking',
